@@ -340,12 +340,23 @@ func TestVerifReplay(t *testing.T) {
 	result := "passed"
 	runs := vRF.Repeat
 	if runs < 1 {
-		runs = 1
+		// Go's map iteration order (word order of a freshly built list) is
+		// random per construction: give an order-dependent counterexample a
+		// fair number of chances even when the engine did not mark it as such
+		runs = 40
 	}
 	done := 0
 	for ; done < runs && result == "passed"; done++ {
 		vTapePos, vReadCnt, vFaultRd, vFaultWas, vPadded = 0, 0, -1, false, 0
 		verifDrawLog = nil
+		vSecrets, vShort, vLastPan = nil, false, ""
+		vLogBuf.Reset()
+		for _, f := range []*os.File{vOutFile, vErrFile} {
+			if f != nil {
+				f.Truncate(0)
+				f.Seek(0, 0)
+			}
+		}
 		func() {
 			defer func() {
 				if r := recover(); r != nil {
@@ -362,7 +373,7 @@ func TestVerifReplay(t *testing.T) {
 			h()
 		}()
 	}
-	if runs > 1 {
+	if vRF.Repeat > 1 {
 		say("REPLAY-NOTE: order-dependent counterexample, %d of up to %d runs made\n", done, runs)
 	}
 	if vPadded > 0 {
